@@ -671,6 +671,8 @@ fn tok_strategy() -> BoxedStrategy<PrimTok> {
                         4 => 0,
                         5 => ((1u32 << 31) | (raw as u32 & 0x7f_ffff)) as u128, // negative subnormal
                         6 => (raw as u32 & 0x7f_ffff) as u128,                 // positive subnormal
+                        // everyday magnitudes: exponent field within +-40 of the bias, random mantissa and sign
+                        7 | 8 => ((raw as u32 & 0x807f_ffff) | ((127 - 40 + ((raw >> 40) as u32 % 81)) << 23)) as u128,
                         _ => (raw as u32) as u128,
                     }
                 } else {
@@ -682,6 +684,8 @@ fn tok_strategy() -> BoxedStrategy<PrimTok> {
                         4 => 0,
                         5 => ((1u64 << 63) | (raw as u64 & 0xf_ffff_ffff_ffff)) as u128, // negative subnormal
                         6 => (raw as u64 & 0xf_ffff_ffff_ffff) as u128,                 // positive subnormal
+                        // everyday magnitudes: exponent field within +-70 of the bias (2^-70 .. 2^70), random mantissa and sign
+                        7 | 8 | 9 => ((raw as u64 & 0x800f_ffff_ffff_ffff) | ((1023 - 70 + ((raw >> 64) as u64 % 141)) << 52)) as u128,
                         _ => (raw as u64) as u128,
                     }
                 };
@@ -735,5 +739,5 @@ pub fn run(ctx: &Ctx) {
     ctx.generated("decimals", "val", n, "1..400 digits; scales +-40..60, +-2000, the scale limit +-3 on both sides, anywhere in +-150000", move || val_strategy(max_len), check_val);
     let max_digits = t.pick(400usize, 2000);
     ctx.generated("json-texts", "text", n, "JSON numbers from the grammar (1..max digits, fractions with leading zeros, exponents small / at the scale limit / at the i64 ends) and single-token corruptions of them; read as number, as numeric string and through json_num / json_num_option", move || text_strategy(max_digits), check_text);
-    ctx.generated("primitive-tokens", "tok", n, "serde::de::value deserializers for u8..u128, i8..i128 (MIN, MAX, 0, 1, random), f32/f64 bit patterns incl. NaN and infinities", tok_strategy, check_tok);
+    ctx.generated("primitive-tokens", "tok", n, "serde::de::value deserializers for u8..u128, i8..i128 (MIN, MAX, 0, 1, random), f32/f64 bit patterns incl. NaN, infinities, subnormals, and a quarter of them with everyday magnitudes (2^-70..2^70: up to 52 + 70 binary places)", tok_strategy, check_tok);
 }
